@@ -86,6 +86,12 @@ Theorem mia_is_mi_over_declared_values :
 Proof. exact mia_is_value_spec. Qed.
 Print Assumptions mia_is_mi_over_declared_values.
 
+(* the form of that specification which the correspondence check evaluates (totals computed once) is the specification *)
+Theorem evaluated_mi_is_the_spec :
+  forall phi edges vals rows, mi_values_fast phi edges vals rows = mi_values phi edges vals rows.
+Proof. exact mi_values_fast_eq. Qed.
+Print Assumptions evaluated_mi_is_the_spec.
+
 (* ---------------------------------------------------------------------------------------------- undeclared_no_effect *)
 (* traces carrying undeclared values have no effect at all: for EVERY sequence of update() batches the accumulators are those
    obtained from the declared traces only (hence so is everything computed from them) *)
